@@ -256,6 +256,9 @@ let handle kind c =
      | Some mo, Some io -> check_eq "pad-versions" show_list mo io
      | None, None -> ()
      | _ -> diff "pad-status" ~model:(match m with Some _ -> "ok" | None -> "panic") ~impl:status);
+    (* the property speaks of the padded list: a panic leaves none (finding class pad-panic) *)
+    if status = "panic" then
+      prop "pad-panic" (Printf.sprintf "padVersions panicked: versions=%s patterns=%s" (show_list versions) (show_list patterns));
     (match impl with
      | Some io ->
        let detail = Printf.sprintf "versions=%s patterns=%s out=%s" (show_list versions) (show_list patterns) (show_list io) in
